@@ -6,7 +6,9 @@ import (
 	"encoding/json"
 	"errors"
 	"fmt"
+	"regexp"
 	"sort"
+	"strconv"
 	"strings"
 	"testing"
 	"time"
@@ -666,7 +668,42 @@ func parseLockKeyText(lockKey string) map[string]bool {
 		table := strings.ToLower(strings.Trim(part[:i], "` "))
 		for _, pk := range strings.Split(part[i+1:], ",") {
 			if pk != "" {
-				out[table+":"+pk] = true
+				out[table+":"+normPKText(pk)] = true
+			}
+		}
+	}
+	return out
+}
+
+var expFloatRe = regexp.MustCompile(`^-?\d(\.\d+)?e[+-]\d+$`)
+
+// normPKText: a key component the client printed as a floating-point number in
+// exponent form names the same value as its plain decimal spelling (the
+// property speaks of the key value, not of a number format).
+func normPKText(pk string) string {
+	parts := strings.Split(pk, "_")
+	for i, p := range parts {
+		if expFloatRe.MatchString(p) {
+			if f, err := strconv.ParseFloat(p, 64); err == nil {
+				parts[i] = strconv.FormatFloat(f, 'f', -1, 64)
+			}
+		}
+	}
+	return strings.Join(parts, "_")
+}
+
+// rawLockKeys: normalised key -> the text as sent.
+func rawLockKeys(lockKey string) map[string]string {
+	out := map[string]string{}
+	for _, part := range strings.Split(lockKey, ";") {
+		i := strings.Index(part, ":")
+		if i < 0 {
+			continue
+		}
+		table := strings.ToLower(strings.Trim(part[:i], "` "))
+		for _, pk := range strings.Split(part[i+1:], ",") {
+			if pk != "" {
+				out[table+":"+normPKText(pk)] = pk
 			}
 		}
 	}
